@@ -3,6 +3,7 @@
 From Coq Require Import List NArith Bool.
 Import ListNotations.
 Require Import Base.Wire Base.PyStr C17.Model C17.Names C17.Lemmas.
+Require gen.T17.
 Open Scope N_scope.
 
 Definition same_fs (cfg : config) : bool := negb (xdev_eff cfg).
@@ -53,3 +54,23 @@ Example ex_backup_wanted : backup_wanted w_cfg_s (w_f0 w_fn) [1] = true.
 Proof. vm_compute. reflexivity. Qed.
 Example ex_backup_not_wanted : backup_wanted w_cfg_s (w_f0 w_fn) (w_old ++ [1]) = false.
 Proof. vm_compute. reflexivity. Qed.
+
+(* an exception after the first write of a same-fs save: the unwinding closes and
+   removes the temp file, the target is still the old version *)
+Example ex_unwind :
+  let es := interrupted w_cfg_s w_fn w_tok w_now 4 w_f0 (save_ops [[1; 2]; [3]]) 2 true in
+  length es = 4%nat /\ apply es w_f0 w_fn = Some w_old /\
+  apply es w_f0 (temp_name w_cfg_s w_fn w_tok) = None.
+Proof. vm_compute. repeat split; reflexivity. Qed.
+
+(* finding F44: the write error of the 2nd chunk is swallowed, the save commits chunks 1 and 3 *)
+Lemma swallowed_refuted :
+  token_ok w_tok = true /\ digits_ok w_now = true /\ same_fs w_cfg_s = true /\
+  gen.T17.SWALLOW_WRITE_ERROR_SITES <> [] /\
+  ~ atomic_outcome (w_f0 w_fn) (concat w_ws)
+      (apply (effects w_cfg_s w_fn w_tok w_now 6 w_f0 (swallowed_ops w_ws 1)) w_f0 w_fn).
+Proof.
+  split; [vm_compute; reflexivity|]. split; [vm_compute; reflexivity|].
+  split; [vm_compute; reflexivity|]. split; [vm_compute; discriminate|].
+  intros [H|[H|[H _]]]; vm_compute in H; discriminate.
+Qed.
